@@ -1,7 +1,7 @@
 SPECIFICATION Spec
 CONSTANTS
   AmbiguityFirst = FALSE
-  Kinds = {"up", "auth", "authn", "idtu"}
+  Kinds = {"up", "authn", "idtu"}
   MaxKeys = 3
   Export = TRUE
 INVARIANTS
